@@ -109,6 +109,8 @@ struct Scenario {
     batch: &'static str,
     only_baked: bool,
     ntracks: usize,
+    /// consume the two result streams through into_iter() instead of all()
+    iter: bool,
 }
 
 fn run_scenario(sc: &Scenario) -> Obs {
@@ -135,8 +137,16 @@ fn run_scenario(sc: &Scenario) -> Obs {
         "owned2" => store.owned_track_distances(&[1, 2], 0, sc.only_baked),
         _ => store.owned_track_distances(&[2, 4, 1], 0, sc.only_baked),
     };
-    let oks = ok.all();
-    let errs = err.all();
+    // errors first (as the trackers do), then the results; either through all() or through the iterators
+    let (oks, errs) = if sc.iter {
+        let e: Vec<_> = err.into_iter().collect();
+        let o: Vec<_> = ok.into_iter().collect();
+        (o, e)
+    } else {
+        let o = ok.all();
+        let e = err.all();
+        (o, e)
+    };
     sched::set_phase(2);
     let arrival: Vec<u64> = oks.iter().map(|o| o.from * 100 + o.to).collect();
     let mut items: Vec<Item> = oks.iter().map(|o| (o.from, o.to, o.attribute_metric.map(|v| v.to_bits()), o.feature_distance.map(|v| v.to_bits()))).collect();
@@ -166,7 +176,7 @@ fn expected(sc: &Scenario) -> (Vec<Item>, usize, Vec<TrackDump>) {
 
 pub fn run(tier: Tier) -> Report {
     let rep = Report::new("C10", tier);
-    rep.set_rule("scenarios = store contents (4-5 tracks: mixed compatibility class, status, 0..2 observations in classes {0,1}, a pair beyond the metric cut-off) x candidate batch {one foreign, two foreign, foreign with a stored id, owned [1], owned [1,2], owned [2,4,1]} x only_baked x shard count; for each scenario every schedule of the store workers and the caller at command granularity within the preemption bound (window = the query until both result streams are drained); oracle: result multiset = reference cartesian product, error count, store unchanged, identical across schedules. states = executions (schedules), transitions = decision points.");
+    rep.set_rule("scenarios = store contents (4-5 tracks: mixed compatibility class, status, 0..2 observations in classes {0,1}, a pair beyond the metric cut-off) x candidate batch {one foreign, two foreign, foreign with a stored id, owned [1], owned [1,2], owned [2,4,1]} x only_baked x result streams consumed through all() / into_iter() x shard count; for each scenario every schedule of the store workers and the caller at command granularity within the preemption bound (window = the query until both result streams are drained); oracle: result multiset = reference cartesian product, error count, store unchanged, identical across schedules. states = executions (schedules), transitions = decision points.");
     rep.assume("macro-step granularity: branching at named schedule points (worker dequeues a command; caller finished queueing; owned query between 'commands sent' and 're-added') and whenever the running task blocks");
     let shard_counts: Vec<usize> = tier.pick(vec![1, 2], vec![1, 2, 3]);
     let bound = usize::MAX / 4; // every schedule at command granularity (the spaces are small); the wall cap is the only limit
@@ -175,11 +185,11 @@ pub fn run(tier: Tier) -> Report {
     let mut vacuity: BTreeMap<String, serde_json::Value> = BTreeMap::new();
     for &shards in &shard_counts {
         for batch in batches {
-            for only_baked in [false, true] {
-                if tier == Tier::Quick && only_baked && (batch == "foreign2" || batch == "owned3") {
+            for (only_baked, iter) in [(false, false), (true, false), (false, true), (true, true)] {
+                if tier == Tier::Quick && (only_baked && (batch == "foreign2" || batch == "owned3") || iter && only_baked && batch != "foreign-stored-id") {
                     continue;
                 }
-                let sc = Scenario { shards, batch, only_baked, ntracks: if batch == "owned3" { 5 } else { 4 } };
+                let sc = Scenario { shards, batch, only_baked, ntracks: if batch == "owned3" { 5 } else { 4 }, iter };
                 if rep.out_of_time() {
                     rep.cap_hit(&format!("wall budget reached before scenario {sc:?}"));
                     continue;
@@ -190,7 +200,7 @@ pub fn run(tier: Tier) -> Report {
                 let arrivals: Mutex<std::collections::BTreeSet<Vec<u64>>> = Mutex::new(Default::default());
                 let cfg = sched::ExploreCfg { window: (1, 1), bound, deadline: Some(std::time::Instant::now() + std::time::Duration::from_secs_f64((rep.budget() - rep.elapsed()).max(1.0))), ..Default::default() };
                 let sc_run = sc.clone();
-                let scj = json!({"shards":shards,"batch":batch,"only_baked":only_baked,"tracks":sc.ntracks});
+                let scj = json!({"shards":shards,"batch":batch,"only_baked":only_baked,"tracks":sc.ntracks,"consumed_through":if iter { "into_iter()" } else { "all()" }});
                 let stats = sched::explore(
                     &cfg,
                     move || run_scenario(&sc_run),
@@ -236,7 +246,7 @@ pub fn run(tier: Tier) -> Report {
                 if stats.truncated {
                     rep.cap_hit(&format!("scenario {sc:?} truncated by the wall cap after {} schedules", stats.executions));
                 }
-                vacuity.insert(format!("{batch}/baked={only_baked}/shards={shards}"), json!({"schedules":stats.executions,"max_decision_points":stats.max_points,"distinct_outcomes":n_out,"distinct_arrival_orders":arrivals.lock().unwrap().len(),"bound":"all","truncated":stats.truncated}));
+                vacuity.insert(format!("{batch}/baked={only_baked}/shards={shards}/{}", if iter { "iter" } else { "all" }), json!({"schedules":stats.executions,"max_decision_points":stats.max_points,"distinct_outcomes":n_out,"distinct_arrival_orders":arrivals.lock().unwrap().len(),"bound":"all","truncated":stats.truncated}));
                 if rep.want_sample(total_exec) || vacuity.len() == 3 {
                     rep.sample(json!({"scenario":scj,"expected_pairs":exp_ok.iter().map(|i| (i.0,i.1)).collect::<Vec<_>>(),"expected_errors":exp_err,"schedules":stats.executions}));
                 }
@@ -245,8 +255,8 @@ pub fn run(tier: Tier) -> Report {
     }
     // fine tier: branch at every synchronisation operation (one preemption) on the smallest scenarios
     let fine: Vec<Scenario> = tier.pick(
-        vec![Scenario { shards: 1, batch: "owned2", only_baked: false, ntracks: 4 }],
-        vec![Scenario { shards: 1, batch: "owned2", only_baked: false, ntracks: 4 }, Scenario { shards: 2, batch: "owned2", only_baked: false, ntracks: 4 }, Scenario { shards: 2, batch: "foreign2", only_baked: true, ntracks: 4 }],
+        vec![Scenario { shards: 1, batch: "owned2", only_baked: false, ntracks: 4, iter: false }],
+        vec![Scenario { shards: 1, batch: "owned2", only_baked: false, ntracks: 4, iter: false }, Scenario { shards: 2, batch: "owned2", only_baked: false, ntracks: 4, iter: true }, Scenario { shards: 2, batch: "foreign2", only_baked: true, ntracks: 4, iter: false }],
     );
     for sc in fine {
         let (exp_ok, exp_err, stored) = expected(&sc);
@@ -275,7 +285,7 @@ pub fn run(tier: Tier) -> Report {
     rep.extra("scenarios", json!(vacuity));
     rep.extra("preemption_bound_completed", json!("unbounded: every schedule at command granularity; fine tier: 1 preemption at every synchronisation operation"));
     // determinism self-check: the same schedule twice gives the same observation
-    let sc = Scenario { shards: 2, batch: "foreign2", only_baked: false, ntracks: 4 };
+    let sc = Scenario { shards: 2, batch: "foreign2", only_baked: false, ntracks: 4, iter: false };
     let cfg = sched::ExploreCfg { window: (1, 1), ..Default::default() };
     let f = std::sync::Arc::new(move || run_scenario(&sc));
     let mut replays = 0;
